@@ -17,6 +17,7 @@ struct Cursor {
     std::vector<Frame> st;
     bool entered = false, done = false, wrong_type_end = false;
     Bytes last_query; bool have_last = false;
+    size_t doc_len = 0;
     uint64_t skipped_or_early = 0;
 
     int depth() const { int d = array_root ? 1 : 0; for (auto &f : st) if (f.c->t == V_OBJ) d++; return d; }
@@ -53,7 +54,15 @@ static Bytes resolve_name(const Op &o, const Cursor &c) {
     const std::vector<Node> &k = f.c->kids;
     size_t n = k.size();
     auto pick_any = [&](int64_t i) -> Bytes { if (!n) return Bytes{'q'}; return k[(size_t)((uint64_t)i % n)].name; };
-    switch (o.a % 8) {
+    switch (o.a % 16) {
+        case 8: {   // a name about as long as the whole document, or much longer (it cannot be in it): prefix of a present name + filler
+            Bytes b = pick_any(o.c / 8);
+            size_t L = c.doc_len + (size_t)(o.c / 8 % 4);
+            if (L > 0) L -= 1;
+            if (o.c / 32 % 3 == 0) L = 3 * c.doc_len + 40;
+            b.resize(L, (uint8_t)(o.c / 8 % 2 ? 'm' : 0xff));
+            return b;
+        }
         case 0: {   // present at/after the cursor
             if (f.next >= n) return Bytes{0xff, 0xff, 0xff};
             return k[f.next + (size_t)((uint64_t)o.c / 8 % (n - f.next))].name;
@@ -301,7 +310,7 @@ struct NavRun {
                     }
                     Outcome before = real(P_DEPTH);
                     size_t used0 = before.used;
-                    Outcome o = real(P_TO_WRITER, (int64_t)capn);
+                    Outcome o = real(P_TO_WRITER, (int64_t)capn, Bytes(), plan.P("arena") ? 2 : 0);
                     if (cont && enough) {
                         std::string want = "werr=NONE wbytes=" + to_hex(plan.doc.data() + n->tok, n->tok_len);
                         if (!o.ret) fail("towriter.result", "parser_to_writer returned false on an un-entered container");
@@ -351,8 +360,9 @@ struct NavRun {
         tr.verbose = ctx.verbose;
         if (!decode(plan.doc, plan.root != 0, root)) { res.invalid_plan = true; res.detail = "document is not a valid Binson document"; return; }
         if (plan.max_depth < need_depth(root, plan.root != 0)) { res.invalid_plan = true; res.detail = "max_depth below the document's nesting"; return; }
-        cur.root = &root; cur.array_root = plan.root != 0;
+        cur.root = &root; cur.array_root = plan.root != 0; cur.doc_len = plan.doc.size();
         ps.lead = (int)plan.P("lead");
+        if (plan.P("arena")) ps.tail_room = plan.doc.size() + 16;      // message and extraction buffer packed back to back in one arena of the caller
         ps.setup(plan.max_depth, plan.prefill, plan.doc, plan.root != 0);
         ps.guard_lookups = false;       // the model only issues lookups inside object frames
         ps.use_cb = !plan.P("nocb");
@@ -467,6 +477,7 @@ Plan nav_generate(uint64_t base, const std::string &prop, uint64_t index, int ti
     Rng rl = r.fork("layout");
     if (rl.chance(1, prop == "C07" ? 2 : 4)) pick_name_family(rl, k);
     if (rl.chance(1, 2)) p.par["lead"] = 1 + (int64_t)rl.below(15);     // the message does not start on an allocator boundary
+    if (prop == "C11" && rl.chance(1, 5)) p.par["arena"] = 1;
     Node root;
     if (rd.chance(3, 100)) {
         root.t = p.root ? V_ARR : V_OBJ;
@@ -497,7 +508,7 @@ Plan nav_generate(uint64_t base, const std::string &prop, uint64_t index, int ti
     if (prop == "C11" && ro.chance(1, 2)) p.par["extw"] = 1 + (int64_t)ro.below(2);
     int nops = 1 + (int)ro.below(tier ? 120 : 80);
     if (k.wide) { nops = k.wide + (int)ro.below(200); w_next += 200; }     // long enough to walk across the wide container
-    GenCursor g; g.root = &root; g.cur.root = &root; g.cur.array_root = p.root != 0;
+    GenCursor g; g.root = &root; g.cur.root = &root; g.cur.array_root = p.root != 0; g.cur.doc_len = p.doc.size();
     std::vector<Node> dummy;
     int w_restart = ro.chance(1, 2) ? 3 + (int)ro.below(12) : 0;       // half of the histories restart the parser now and then
     for (int i = 0; i < nops; i++) {
@@ -521,8 +532,8 @@ Plan nav_generate(uint64_t base, const std::string &prop, uint64_t index, int ti
         while (pick >= wts[c]) { pick -= wts[c]; c++; }
         Op op; op.code = cands[c].code;
         if (op.code == M_FIELD || op.code == M_FIELD_ENS) {
-            static const int kinds[] = {0, 0, 0, 0, 1, 2, 2, 3, 4, 5, 6, 7};
-            op.a = kinds[ro.below(12)];
+            static const int kinds[] = {0, 0, 0, 0, 1, 2, 2, 3, 4, 5, 6, 7, 8};
+            op.a = kinds[ro.below(13)];
             op.c = (int64_t)(ro.below(64) * 8) | (ro.chance(1, 2) ? 1 : 0) | (op.code == M_FIELD_ENS && ro.chance(1, 5) ? 2 : 0) | (ro.chance(1, 3) ? 4 : 0);
         } else if (op.code == M_STREQ) op.a = (int64_t)ro.below(4);
         else if (op.code == M_TO_WRITER) op.a = (int64_t)ro.below(8);
